@@ -32,13 +32,17 @@ Lemma read_binary_file c max_le off size : in_file c -> c_budget c <> 0 ->
   0 <= off <= 65535 -> off <= len (c_file c) -> 1 <= Z.min max_le size <= 256 -> Z.min max_le size <= c_mle c ->
   read_binary c max_le off size = (Ok (slice (c_file c) off (off + Z.min max_le size)), c).
 Proof.
-  intros (Ha & Hs) Hb Ho Hl Hm Hc. unfold read_binary, t4_send.
+  intros (Ha & Hs) Hb Ho Hl Hm Hc.
+  assert (Hle : len (slice (c_file c) off (off + Z.min max_le size)) <= Z.min max_le size)
+    by (pose proof (len_slice_le (c_file c) off (off + Z.min max_le size)); lia).
+  unfold read_binary, t4_send.
   destruct (apdu_rd_ok off (Z.min max_le size)) as (f & ->); [lia | lia |].
   replace (c_budget c =? 0) with false by lia. unfold card_step. rewrite Hs.
   change (2 =? 0) with false. change (2 =? 1) with false. change (2 =? 2) with true. cbv iota.
   replace (Z.min max_le size <=? 0) with false by lia.
   replace (true && (Z.min max_le size >? c_mle c)) with false by lia.
-  replace (off >? len (c_file c)) with false by lia. reflexivity.
+  replace (off >? len (c_file c)) with false by lia.
+  replace (len (slice (c_file c) off (off + Z.min max_le size)) >? Z.max (Z.min max_le size) 0) with false by lia. reflexivity.
 Qed.
 
 (* an UPDATE BINARY the card accepts, independent of the file contents *)
@@ -238,7 +242,7 @@ Qed.
 
 Definition file_sess (c : card) (f : list Z) : card := mkCard (c_cc c) (c_fid c) f (c_v2 c) (c_v1 c) true 2 (-1) [].
 
-Lemma t4_read_ok c i f n : t4_wf c i -> 0 <= n -> i_nlen i + n <= len f -> i_nlen i + n <= 65536 ->
+Lemma t4_read_ok c i f n : t4_wf c i -> 0 <= n <= i_cap i -> i_nlen i + n <= len f -> i_nlen i + n <= 65536 ->
   be (take (i_nlen i) f) = n ->
   t4_read_ndef (sess0 c f) = (Ok (Ndef true true (i_cap i) (slice f (i_nlen i) (i_nlen i + n)), Some i), file_sess c f).
 Proof.
@@ -253,12 +257,12 @@ Proof.
   rewrite read_binary_file; [| exact Hin | cbn; lia | lia | cbn [c_file file_sess]; lia | lia | rewrite Hmle; lia ].
   unfold lift. cbn [c_file file_sess]. rewrite Z.min_r by lia. rewrite Z.add_0_l, slice_0.
   rewrite len_take by lia. replace (negb (i_nlen i =? i_nlen i)) with false by lia.
-  rewrite Hbe.
-  rewrite (rd_file_ok (file_sess c f) i n); cbn [c_file file_sess c_budget]; auto; try lia.
-  - change (len (@nil Z)) with 0. rewrite Z.add_0_r, slice_nil_eq. reflexivity.
-  - change (len (@nil Z)) with 0. lia.
+  rewrite Hbe. replace (n >? i_cap i) with false by lia.
+  rewrite (rd_file_ok (file_sess c f) i n); cbn [c_file file_sess c_budget]; auto; try lia;
+    try (change (len (@nil Z)) with 0; lia).
+  change (len (@nil Z)) with 0. rewrite Z.add_0_r, slice_nil_eq. reflexivity.
 Qed.
-Lemma t4_fresh_ok c i f n : t4_wf c i -> 0 <= n -> i_nlen i + n <= len f -> i_nlen i + n <= 65536 ->
+Lemma t4_fresh_ok c i f n : t4_wf c i -> 0 <= n <= i_cap i -> i_nlen i + n <= len f -> i_nlen i + n <= 65536 ->
   be (take (i_nlen i) f) = n ->
   t4_fresh (mkCard (c_cc c) (c_fid c) f (c_v2 c) (c_v1 c) (c_app c) (c_sel c) (c_budget c) (c_log c)) =
   Ok (Ndef true true (i_cap i) (slice f (i_nlen i) (i_nlen i + n))).
@@ -324,7 +328,7 @@ Lemma t4_fresh_ext a b : c_cc a = c_cc b -> c_fid a = c_fid b -> c_file a = c_fi
   t4_fresh a = t4_fresh b.
 Proof. intros H1 H2 H3 H4 H5. unfold t4_fresh, new_session. rewrite H1, H2, H3, H4, H5. reflexivity. Qed.
 
-Lemma t4_fresh_same c i c' n : t4_wf c i -> same_cc c c' -> 0 <= n -> i_nlen i + n <= len (c_file c') -> i_nlen i + n <= 65536 ->
+Lemma t4_fresh_same c i c' n : t4_wf c i -> same_cc c c' -> 0 <= n <= i_cap i -> i_nlen i + n <= len (c_file c') -> i_nlen i + n <= 65536 ->
   be (take (i_nlen i) (c_file c')) = n ->
   t4_fresh c' = Ok (Ndef true true (i_cap i) (slice (c_file c') (i_nlen i) (i_nlen i + n))).
 Proof.
